@@ -190,6 +190,8 @@ struct Ctx<'r> {
     used_hostile: Vec<bool>,
     /// a global int counter that compound array initialisers bump, if defined
     tick: Option<String>,
+    /// live loop counters: never assigned or shadowed by generated statements
+    protected: Vec<String>,
 }
 
 impl<'r> Ctx<'r> {
@@ -332,7 +334,7 @@ impl<'r> Ctx<'r> {
             }
             10 => {
                 // assignment as expression: (v <- e) yields e
-                let vars = self.vars_of(&|k| *k == Kind::Int);
+                let vars: Vec<Var> = self.vars_of(&|k| *k == Kind::Int).into_iter().filter(|v| !self.protected.contains(&v.name)).collect();
                 if vars.is_empty() {
                     return self.int_expr(0);
                 }
@@ -579,7 +581,7 @@ impl<'r> Ctx<'r> {
         match self.rng.below(10) {
             0..=2 => self.print_expr(depth),
             3 | 4 => {
-                let vars = self.vars_of(&|k| matches!(k, Kind::Int | Kind::Bool));
+                let vars: Vec<Var> = self.vars_of(&|k| matches!(k, Kind::Int | Kind::Bool)).into_iter().filter(|v| !self.protected.contains(&v.name)).collect();
                 if vars.is_empty() {
                     return self.print_expr(depth);
                 }
@@ -591,7 +593,7 @@ impl<'r> Ctx<'r> {
                 let name = if !self.globals.is_empty() && self.rng.below(4) == 0 && !self.in_function {
                     // shadow a global inside this scope (only if not already local here)
                     let g = self.rng.pick(&self.globals).name.clone();
-                    if self.scopes.last().map(|s| s.iter().any(|v| v.name == g)).unwrap_or(true) { self.fresh("l") } else { g }
+                    if self.protected.contains(&g) || self.scopes.last().map(|s| s.iter().any(|v| v.name == g)).unwrap_or(true) { self.fresh("l") } else { g }
                 } else {
                     self.fresh("l")
                 };
@@ -769,7 +771,9 @@ impl<'r> Ctx<'r> {
                 let i = self.fresh("i");
                 let k = self.rng.range(0, 4);
                 self.scopes.last_mut().unwrap().push(Var { name: i.clone(), kind: Kind::Int });
+                self.protected.push(i.clone());
                 let (b, x) = self.inner_stmt(depth.min(1), false);
+                self.protected.pop();
                 allocs = add(allocs, mul(x, k as u64));
                 parts.push(format!("let {} = 0", i));
                 parts.push(format!("while {} < {} do begin {}; {} <- {} + 1 end", i, k, b, i, i));
@@ -896,18 +900,14 @@ impl<'r> Ctx<'r> {
         let k = self.rng.range(0, 6);
         out.push(Stmt { text: format!("let {} = 0", i), allocs: Some(0), is_def: true });
         self.globals.push(Var { name: i.clone(), kind: Kind::Int });
+        self.protected.push(i.clone());
         self.scopes.push(Vec::new());
         let n = 1 + self.rng.usize_below(3);
         let mut parts = Vec::new();
         let mut allocs = Some(0);
         for _ in 0..n {
-            // the counter must not be assigned by the body
-            let (s, x) = loop {
-                let (s, x) = self.inner_stmt(depth, true);
-                if !s.contains(&format!("{} <-", i)) {
-                    break (s, x);
-                }
-            };
+            // the counter is protected: the body neither assigns nor shadows it
+            let (s, x) = self.inner_stmt(depth, true);
             allocs = add(allocs, x);
             parts.push(s);
         }
@@ -921,6 +921,7 @@ impl<'r> Ctx<'r> {
             allocs = add(allocs, mul(x, kj as u64));
         }
         self.scopes.pop();
+        self.protected.pop();
         parts.push(format!("{} <- {} + 1", i, i));
         out.push(Stmt {
             text: format!("while {} < {} do begin\n  {}\nend", i, k, parts.join(";\n  ")),
@@ -1048,6 +1049,7 @@ pub fn generate(rng: &mut Rng, cfg: &GenCfg) -> GenProgram {
         counter: 0,
         used_hostile: vec![false; HOSTILE_IDENTS.len()],
         tick: None,
+        protected: Vec::new(),
     };
     let mut out = Vec::new();
     // a few seed definitions so that later statements have something to work with
